@@ -1076,6 +1076,9 @@ func (m *Nitro) LoadFromDisk(dir string, concurr int, callb ItemCallback) (*Snap
 		return nil, err
 	}
 
+	// Backups older than checksums.json carry no checksums; when the file is
+	// there every entry counts, including the zero checksum of an empty shard.
+	var verifyChecksums, verifyDeltaChecksums bool
 	if bs, err := ioutil.ReadFile(filepath.Join(datadir, "checksums.json")); err == nil {
 		if err = json.Unmarshal(bs, &checksums); err != nil {
 			return nil, err
@@ -1083,6 +1086,7 @@ func (m *Nitro) LoadFromDisk(dir string, concurr int, callb ItemCallback) (*Snap
 		if len(checksums) != len(files) {
 			return nil, ErrCorruptSnapshot
 		}
+		verifyChecksums = true
 	} else {
 		checksums = make([]uint32, len(files))
 	}
@@ -1153,7 +1157,7 @@ func (m *Nitro) LoadFromDisk(dir string, concurr int, callb ItemCallback) (*Snap
 	close(wchan)
 	wg.Wait()
 	for i, rdr := range readers {
-		if checksums[i] != 0 && checksums[i] != rdr.Checksum() {
+		if (verifyChecksums || checksums[i] != 0) && checksums[i] != rdr.Checksum() {
 			return nil, ErrCorruptSnapshot
 		}
 	}
@@ -1194,6 +1198,7 @@ func (m *Nitro) LoadFromDisk(dir string, concurr int, callb ItemCallback) (*Snap
 			if len(deltaChecksums) != len(files) {
 				return nil, ErrCorruptSnapshot
 			}
+			verifyDeltaChecksums = true
 		}
 
 		defer func() {
@@ -1264,7 +1269,7 @@ func (m *Nitro) LoadFromDisk(dir string, concurr int, callb ItemCallback) (*Snap
 		wg.Wait()
 
 		for i, rdr := range readers {
-			if deltaChecksums[i] != 0 && deltaChecksums[i] != rdr.Checksum() {
+			if (verifyDeltaChecksums || deltaChecksums[i] != 0) && deltaChecksums[i] != rdr.Checksum() {
 				return nil, ErrCorruptSnapshot
 			}
 		}
